@@ -310,6 +310,43 @@ func runC07(p *core.Prog, r *core.Report) {
 			// symbolic count
 			okCount, detail := checkAddCount(p, t, adds, ctorGos)
 			r.Check(okCount, "C07-R3", "constructor: wg.Add count equals the number of goroutines started", p.Pos(adds[0].Pos()), detail, detail)
+			// …and the goroutines counted are really started: no way out of the constructor between an Add made ahead of a
+			// loop and that loop (an early return would leave the counter above zero for ever: Wait() never returns)
+			{
+				var early []string
+				for _, a := range adds {
+					if sx.InnermostLoop(t.Ctor, a.Block()) != nil {
+						continue
+					}
+					hs := map[*ssa.BasicBlock]bool{}
+					for _, g := range ctorGos {
+						if h := sx.InnermostLoop(t.Ctor, g.Block()); h != nil {
+							hs[h] = true
+						}
+					}
+					if len(hs) == 0 {
+						continue
+					}
+					// a one-block `for range n` loop is entered behind its guard `0 < n`: the guard's other edge is the loop
+					// running zero times, not a way around it
+					skip := map[sx.Edge]bool{}
+					for h := range hs {
+						if len(h.Succs) > 0 && h.Succs[0] == h {
+							for _, pr := range h.Preds {
+								if pr != h && len(pr.Succs) == 2 && pr.Succs[0] == h {
+									skip[sx.Edge{From: pr, Idx: 1}] = true
+								}
+							}
+						}
+					}
+					for _, ret := range sx.Returns(t.Ctor) {
+						if sx.ReachInstr(t.Ctor, a, ret, sx.Cut{Blocks: hs, Edges: skip}) {
+							early = append(early, "the return at "+p.Pos(ret.Pos())+" is reachable after wg.Add at "+p.Pos(a.Pos())+" without entering the loop that starts the goroutines")
+						}
+					}
+				}
+				r.Check(len(early) == 0, "C07-R3", "constructor: every counted goroutine is started", p.FuncPos(t.Ctor), "no return between wg.Add and the loop that starts the goroutines", strings.Join(uniq(early), "; ")+": Wait() blocks for ever on such a lane")
+			}
 		}
 	}
 	for _, g := range t.GoSites {
@@ -683,6 +720,38 @@ func runC08(p *core.Prog, r *core.Report) {
 			okLoop, why = false, fmt.Sprintf("%d go statements start workers in the constructor (expected one per lane)", nInCtor)
 		}
 		r.Check(okLoop, "C08-R1", "exactly one worker per lane", p.FuncPos(t.Ctor), why, why)
+		// every goroutine the constructor starts in a loop is started on every iteration (no lane without its queue or worker)
+		{
+			var cond []string
+			for _, g := range t.GoSites {
+				if g.Parent() != t.Ctor {
+					continue
+				}
+				h := sx.InnermostLoop(t.Ctor, g.Block())
+				if h == nil || len(h.Instrs) == 0 {
+					continue
+				}
+				for e := range sx.BackEdgesTo(h) {
+					latch := e.From
+					if latch == g.Block() {
+						continue
+					}
+					// from the loop head, can the back edge be reached without passing the go statement?
+					if sx.ReachInstr(t.Ctor, h.Instrs[0], latch.Instrs[len(latch.Instrs)-1], sx.Cut{Instrs: map[ssa.Instruction]bool{g: true}}) && g.Block() != h {
+						cond = append(cond, "the go statement at "+p.Pos(g.Pos())+" is skipped on some iterations of the constructor's loop")
+					}
+				}
+			}
+			r.Check(len(cond) == 0, "C08-R1", "every lane gets all of its goroutines", p.FuncPos(t.Ctor), "each go statement of the constructor's loop runs on every iteration", strings.Join(uniq(cond), "; ")+": a lane without its queue goroutine never offers its tasks on the shared channel — they wait behind that lane's busy worker while other workers idle")
+		}
+		// every element of the lane lists is a channel of its own
+		{
+			var al []string
+			for _, st := range t.AliasElems {
+				al = append(al, "the lane-list element assigned at "+p.Pos(st.Pos())+" is "+short(sx.ValPath(st.Val))+", not a channel made for it")
+			}
+			r.Check(len(al) == 0, "C08-R2", "lane channels are distinct objects", p.FuncPos(t.Ctor), fmt.Sprintf("%d channel(s) made per iteration, one per list element", len(t.ElemChans)), strings.Join(al, "; ")+": with the buffered and the hand-over channel being one object PushTask talks to the lane's worker directly and the shared channel is never offered the task")
+		}
 		// Start only synchronous in the worker body (same check as C06-R4, restated for the bound)
 		wreach := reachableFrom(p, t.Worker)
 		okWho := true
